@@ -33,6 +33,8 @@ QUICK = {"call_call_same_cold", "call_clear_cold", "call_clear_warm", "call_redu
 
 
 CODE_TEXTS = {}
+MEMO = {}           # classification of file contents (the same few contents recur in every schedule)
+STEPS = {"on": True}
 
 
 def spec_of(base, k, ver, opts, ops):
@@ -48,8 +50,13 @@ def run_schedule(args):
     sch = list(sched) if sched is not None else None
 
     seen = set()
+    snaps = []          # the directory in the vocabulary of CacheFS before every granted call (= after the previous one)
+    want_steps = sc[3] is not None and bool(CODE_TEXTS) and STEPS.get("on")
 
     def policy(waiting, step):
+        if want_steps:
+            try: snaps.append(cachefs_model.snapshot(root, {3: "a", 4: "b"}, CODE_TEXTS, owners=False, memo=MEMO))
+            except Exception: snaps.append(None)
         seen.update(waiting)
         if sch is None:
             return rng.choice(sorted(waiting)), "G"
@@ -82,10 +89,13 @@ def run_schedule(args):
                 exp = ["v%d" % ver, op[1], op[2] if len(op) > 2 else 0]
                 if l["value"] != exp and not (op[0] == "shelveref" and l["value"] == "evicted"):
                     problems.append({"participant": k, "kind": "wrong_value", "op": op, "got": l["value"]})
-    snap = None
+    snap = None; last_state = None
     if sc[3] is not None and CODE_TEXTS:
         try: snap = cachefs_model.snapshot(root, {3: "a", 4: "b"}, CODE_TEXTS)
         except Exception as e: snap = "snapshot-error: " + repr(e)[:100]
+        if want_steps:
+            try: last_state = cachefs_model.snapshot(root, {3: "a", 4: "b"}, CODE_TEXTS, owners=False, memo=MEMO)
+            except Exception: last_state = None
     # afterwards: one complete result under every final name, and the directory is still usable
     rc, lines, err = fsctl.run_plain(root, spec_of(cdir, 9, parts[0][0], {}, [["loadall"], ["call", 3], ["call", 4]]))
     if rc != 0 or len(lines) != 3:
@@ -96,8 +106,12 @@ def run_schedule(args):
             if "exc" in l or l.get("value") != ["v%d" % parts[0][0], l["op"][1], 0]:
                 problems.append({"participant": "after", "kind": "unusable_afterwards", "line": l})
     shutil.rmtree(cdir, ignore_errors=True)
+    steps = None
+    if want_steps and snap is not None and not str(snap).startswith("snapshot-error"):
+        seq = snaps + [last_state]
+        steps = [(a, b, k) for k, (a, b) in enumerate(zip(seq, seq[1:])) if a is not None and b is not None and a != b]
     return {"scenario": name, "schedule": sched, "seed": seed, "actors": [t[0][0] for t in trace], "ncalls": len(trace),
-            "trace": [t[0] for t in trace], "problems": problems, "snapshot": snap}
+            "trace": [t[0] for t in trace], "problems": problems, "snapshot": snap, "steps": steps}
 
 
 def model_schedules(c, sc, num):
@@ -125,7 +139,10 @@ def body(c):
         fsctl.run_plain(rd, spec_of(refb, 7, v, {}, [["call", 3]]))
         CODE_TEXTS[v] = open(os.path.join(rd, "joblib", "cachedmod", "f", "func_code.py"), "rb").read()
     shutil.rmtree(refb, ignore_errors=True)
-    finals = {s[0]: cachefs_model.final_states(c, s[0], **s[3]) for s in scen if s[3] is not None and (not c.quick or len(s[3]["ops"]) <= 2)}
+    finals = {}; rels = {}
+    for s in scen:
+        if s[3] is not None and (not c.quick or len(s[3]["ops"]) <= 2):
+            finals[s[0]], rels[s[0]] = cachefs_model.final_states_and_steps(c, s[0], **s[3])
     jobs = []; bases = []
     nrand = 4 if c.quick else 60
     nsim = 6 if c.quick else 80
@@ -166,8 +183,8 @@ def body(c):
                 destructive = len(parts) <= C or any(op[0] in ("clear", "clear_all", "reduce") for op in parts[C][2])
                 if c.quick and not destructive: continue
                 if len(parts) == 1 and (A == 0 or C == 0): continue      # threads of one process: the main thread only starts and joins them
-                for a in range(0, cnt[A] + 1):
-                    for a2 in ((1,) if c.quick and len(parts) == 1 else (1, 2)):
+                for a in range(0, cnt[A] + 1, 2 if c.quick else 1):
+                    for a2 in ((1,) if c.quick else (1, 2)):
                         jobs.append((base, sc, sid, [A] * a + [B] * (cnt[B] + 10) + [A] * a2 + [C] * (cnt[C] + 10) + [A] * (cnt[A] + 10), 0)); sid += 1
         for s in range(nrand):
             jobs.append((base, sc, sid, None, c.seed * 1000 + s)); sid += 1
@@ -186,6 +203,21 @@ def body(c):
                 nout += 1
                 if nout <= 4:
                     print("DRIFT property=C11 final state of the real directory is not a final state of CacheFS: scenario=%s schedule=%s snapshot=%s" % (r["scenario"], str(r["schedule"])[:80], str(r["snapshot"])[:400]))
+    # step conformance: every change of the real directory between two consecutive file-system calls is a transition of CacheFS
+    # (from that directory state), or the composition of two of them (a call in flight when the snapshot was taken)
+    nst = 0; nbad = 0
+    for r in results:
+        if not r.get("steps") or r["scenario"] not in rels or r["problems"]: continue
+        rel = rels[r["scenario"]]
+        succ = {}
+        for a, b in rel: succ.setdefault(a, set()).add(b)
+        for a, b, k in r["steps"]:
+            nst += 1
+            if (a, b) in rel or any(b in succ.get(m, ()) for m in succ.get(a, ())): continue
+            nbad += 1
+            if nbad <= 4:
+                print("DRIFT property=C11 the real directory changes in a way no transition of CacheFS does: scenario=%s call #%d %s: %s -> %s" % (r["scenario"], k, r["trace"][k] if k < len(r["trace"]) else "?", a[:300], b[:300]))
+    c.extra["directory_steps_compared_with_model"] = nst; c.extra["directory_steps_not_in_model"] = nbad; c.drift += nbad
     c.extra["final_states_compared_with_model"] = nfin; c.extra["final_states_not_in_model"] = nout; c.drift += nout
     for r in results:
         c.evaluations += 1; per[r["scenario"]] += 1
